@@ -198,6 +198,18 @@ func applyWalk(text string, walk []rwOp, seed int64) (string, []string, error) {
 			permuteMapping(root, op.Arg, rnd)
 		case "permute:validations":
 			permuteMapping(mget(root, "validations"), op.Arg, rnd)
+		case "permute:validation":
+			// the keys of every validation mapping (targetClass, message, the expression keys ...), at any depth
+			if vs := mget(root, "validations"); vs != nil && vs.Kind == yaml.MappingNode {
+				for i := 1; i < len(vs.Content); i += 2 {
+					permuteMapping(vs.Content[i], op.Arg, rnd)
+				}
+			}
+			visit(root, func(k, v, _ *yaml.Node) {
+				if k.Value == "nested" || k.Value == "validation" || k.Value == "not" || k.Value == "if" || k.Value == "then" || k.Value == "else" {
+					permuteMapping(v, op.Arg, rnd)
+				}
+			})
 		case "permute:prefixes":
 			permuteMapping(mget(root, "prefixes"), op.Arg, rnd)
 		case "permute:propertyConstraints":
